@@ -15,7 +15,9 @@ by the thread that performs the step (main thread for yields, worker threads for
 """
 from __future__ import annotations
 
+import os
 import queue
+import signal
 import threading
 import time
 from typing import Any
@@ -198,6 +200,10 @@ def build_schema(desc: dict) -> dict:
     return {"openapi": "3.0.2", "info": {"title": "t", "version": "1"}, "paths": paths}
 
 
+class RunHang(BaseException):
+    """Raised by the watchdog alarm in the thread that iterates the event stream."""
+
+
 def run_one(desc: dict, controller: "Recorder | None" = None) -> dict:
     """Execute one run; returns {"hdr": ..., "lines": [...]}. Never raises for engine-level problems (they become lines)."""
     import hypothesis
@@ -310,6 +316,16 @@ def run_one(desc: dict, controller: "Recorder | None" = None) -> dict:
             profile_before = hypothesis.settings.default
             hypothesis.settings.register_profile("verif-large", max_examples=int(desc["profile_max"]))
             hypothesis.settings.load_profile("verif-large")
+        # watchdog: a run that stops producing events (consumer waiting for a dead worker, join on a blocked thread, ...) is an
+        # observation (HANG line), not a stuck check. SIGALRM interrupts lock waits of the main thread; only armed there.
+        armed = threading.current_thread() is threading.main_thread()
+        if armed:
+            def _on_alarm(signum, frame):
+                raise RunHang()
+
+            old_handler = signal.signal(signal.SIGALRM, _on_alarm)
+            hang_s = int(os.environ.get("VERIF_HANG_S", "120"))
+            signal.alarm(hang_s)
         try:
             stream = from_schema(schema, config=config).execute()
             n = 0
@@ -324,6 +340,8 @@ def run_one(desc: dict, controller: "Recorder | None" = None) -> dict:
             try:
                 for ev in stream:
                     n += 1
+                    if armed:
+                        signal.alarm(hang_s)   # the limit is on the silence between two events, not on the run
                     kind = KIND.get(type(ev).__name__, type(ev).__name__)
                     line: dict = {"e": "Y", "k": kind}
                     if kind in ("PS", "PF"):
@@ -371,10 +389,22 @@ def run_one(desc: dict, controller: "Recorder | None" = None) -> dict:
                     if desc.get("stop_at") and n == desc["stop_at"]:
                         stream.stop()
                         rec.emit({"e": "STOP"})
+            except RunHang:
+                fatal = "RunHang"
+                rec.emit({"e": "HANG"})
+                try:   # let the engine's threads wind down; a second expiry while the generator is being closed is part of the same hang
+                    signal.alarm(20) if armed else None
+                    stream.stop()
+                    del stream
+                except RunHang:
+                    pass
             except BaseException as exc:  # the generator itself blew up
                 fatal = type(exc).__name__
                 rec.emit({"e": "CRASH", "err": fatal})
         finally:
+            if armed:
+                signal.alarm(0)
+                signal.signal(signal.SIGALRM, old_handler)
             _verif.uninstall()
             if profile_before is not None:
                 hypothesis.settings.register_profile("verif-restore", profile_before)
